@@ -160,9 +160,16 @@ def rand_history(rng, hid, transport, nsteps, ntids=8, maxrto=60000):
         n = rng.choice([0, 1, 7, 8, rng.randint(0, 8)])
         last = rng.choice([0, 1, 60000, rng.randint(0, 60000), rng.randint(0, 3000)])
         return rto, n, last
+    many = len(addrs) > 6
+    nxt_peer = 0
     for _ in range(nsteps):
         r = rng.random()
         t = rng.randrange(ntids) if rng.random() < 0.7 or not live else rng.choice(live)
+        if many and rng.random() < 0.5:
+            # every address of the large population gets validated, in turn
+            steps.append({"a": "recv", "cls": rng.choice(["request", "indication"]), "tid": t, "from": addrs[nxt_peer % len(addrs)]})
+            nxt_peer += 1
+            continue
         if r < 0.30:
             k = rng.random()
             if k < 0.35:
